@@ -168,7 +168,7 @@ Section Step.
   Lemma step_frame s s' l :
     match l with
     | LStopCall _ | LStopRet _ | LCancel | LReloadCall _ | LReloadRet _ | LBootCrash
-    | LObsState _ | LObsDial _ _ | LObsServe _ _ => True
+    | LObsState _ | LObsDial _ _ | LObsServe _ _ | LObsCensus _ => True
     | _ => False
     end ->
     Inv s -> step_core stop_locked validated mux_ok s l = Some s' -> Inv s'.
@@ -188,6 +188,7 @@ Section Step.
     - destruct (_ || _); [|discriminate]. injection H as <-. apply same_core_refl.
     - destruct (net_get (net s) a) as [[|sid]|]; try discriminate.
       destruct (srv_at s sid); [|discriminate]. destruct (forallb _ _); [|discriminate]. injection H as <-. apply same_core_refl.
+    - destruct (Nat.eqb _ _); [|discriminate]. injection H as <-. apply same_core_refl.
   Qed.
 
   Lemma step_ReloadBegin s s' i : Inv s -> step_core stop_locked validated mux_ok s (LReloadBegin i) = Some s' -> Inv s'.
